@@ -30,6 +30,7 @@ type Ctl struct {
 	FailAt     int64
 	FailRepeat int64
 	FailKinds  map[string]bool            // nil = any kind
+	FailFilter func() bool                // if set, only calls for which it reports true are failed
 	OnCall     func(n int64, kind string) // called (outside the lock) for every interposed call
 	KeepStacks bool                       // record where each failed call came from (diagnostics in failure reports)
 	Stacks     []string
@@ -69,6 +70,21 @@ func (c *Ctl) Commits() int64 { return atomic.LoadInt64(&c.commits) }
 // Frozen reports whether the crash point has been reached.
 func (c *Ctl) Frozen() bool { return atomic.LoadInt32(&c.frozen) == 1 }
 
+// SetFail arms fault injection from another goroutine than the one making database calls (the plain
+// fields may only be set while no call is in flight).
+func (c *Ctl) SetFail(at, repeat int64, kinds map[string]bool) {
+	c.mu.Lock()
+	c.FailAt, c.FailRepeat, c.FailKinds = at, repeat, kinds
+	c.mu.Unlock()
+}
+
+// InjectedCount returns how many calls were failed so far.
+func (c *Ctl) InjectedCount() int {
+	c.mu.Lock()
+	defer c.mu.Unlock()
+	return len(c.Injected)
+}
+
 // Unfreeze ends the simulated crash (the next process opens the database normally).
 func (c *Ctl) Unfreeze() {
 	c.mu.Lock()
@@ -90,7 +106,7 @@ func (c *Ctl) step(kind string) bool {
 	}
 	fail := false
 	if c.FailAt > 0 && n >= c.FailAt && n < c.FailAt+maxI(c.FailRepeat, 1) {
-		if c.FailKinds == nil || c.FailKinds[kind] {
+		if (c.FailKinds == nil || c.FailKinds[kind]) && (c.FailFilter == nil || c.FailFilter()) {
 			fail = true
 			c.Injected = append(c.Injected, kind)
 			if c.KeepStacks {
